@@ -35,6 +35,10 @@ TOP = {
         "PV.NH.inv_left", "PV.NH.inv_right", "PV.NH.C05_inverse_left", "PV.NH.C05_inverse_right", "PV.NH.C05_gauge",
         "PV.NH.X_comm", "PV.NH.main_similarity", "PV.NH.C05_similarity", "PV.NH.C05_eliminated",
     ],
+    "TwoBlock": ["PV.TB.comm_WV", "PV.TB.pairing", "PV.TB.unit_left", "PV.TB.unit_right", "PV.TB.Dx_zero", "PV.TB.X_comm", "PV.TB.toMain",
+                 "PV.TB.C01_similarity", "PV.TB.C01_eliminated", "PV.TB.C02_unit_left", "PV.TB.C02_unit_right", "PV.TB.C02_adjoint",
+                 "PV.TB.C02_Htilde_star", "PV.TB.C03_gauge"],
+    "TwoBlockCor": ["PV.TB.code_least_action", "PV.TB.C03_unique", "PV.TB.same_as_general", "PV.TB.natural"],
     "Unique": ["PV.lsa_unique", "PV.code_least_action", "PV.C03_unique", "PV.shift_cov", "PV.scale_cov", "PV.natural"],
     "UniqueNH": ["PV.nh_unique", "PV.NH.code_least_action", "PV.natural_nh", "PV.C05_hermitian_limit"],
 }
